@@ -383,7 +383,7 @@ def seq_first(e, c, a):
     return some(e.elem_ref(sl, 0)) if sl.hi > sl.lo else none()
 
 
-@model(r"impl \[.*\]>::get$|^Vec::<.*>::get$|impl \[.*\]>::get_mut$|^Vec::<.*>::get_mut$")
+@model(r"impl \[.*\]>::get(::<usize>)?$|^Vec::<.*>::get(::<usize>)?$|impl \[.*\]>::get_mut(::<usize>)?$|^Vec::<.*>::get_mut(::<usize>)?$")
 def seq_get(e, c, a):
     sl = e.as_slice(a[0]); i = a[1]
     n = sl.hi - sl.lo
@@ -947,6 +947,11 @@ def default_value(e, ty):
         return UNIT
     if ty.startswith("Option<"):
         return none()
+    am = re.match(r"^\[(.*); (\d+)\]$", ty)
+    if am:
+        return Agg([default_value(e, am.group(1)) for _ in range(int(am.group(2)))], ty="array")
+    if ty.startswith("(") and ty.endswith(")"):
+        return Agg([default_value(e, t) for t in split_top(ty[1:-1])], ty="tuple")
     base = ty.split("<")[0].split("::")[-1]
     if base in ("HashMap", "BTreeMap", "AHashMap", "HashSet", "BTreeSet", "AHashSet"):
         from .models_coll import MapObj
@@ -1168,7 +1173,7 @@ def ptr_ops(e, c, a):
     return Opaque("nullptr")
 
 
-@model(r"<\(\) as Default>::default$|<bool as Default>::default$|<(u8|u16|u32|u64|usize|i8|i16|i32|i64|isize) as Default>::default$")
+@model(r"<\(\) as Default>::default$|<bool as Default>::default$|<(u8|u16|u32|u64|usize|i8|i16|i32|i64|isize) as Default>::default$|<\[.*; \d+\] as Default>::default$|<\(.*\) as Default>::default$")
 def prim_default(e, c, a):
     ty = re.match(r"<(.*) as Default", c).group(1)
     return default_value(e, ty)
